@@ -1495,7 +1495,18 @@ private:
         haveCL = true;
         clValue = value;
       }
-      resp.headers[name] = value;
+      auto prevConnection = ciEquals(name, "Connection") ? resp.headers.find(name) : resp.headers.end();
+      if (prevConnection != resp.headers.end())
+      {
+        // RFC 9110 §5.3: repeated field lines of a list-valued field combine, in
+        // order, into one comma-separated list. Last-wins would let a later
+        // "Connection: keep-alive" line hide an earlier "Connection: close".
+        prevConnection->second += ", " + value;
+      }
+      else
+      {
+        resp.headers[name] = value;
+      }
       pos = (lnl == std::string::npos) ? hs.size() : lnl + 2;
     }
   }
